@@ -39,20 +39,25 @@ def parseAnn (n : Nat) (s : String) : Option Ann := do
   | true, [d, tg, bf] => some { blk := b, forced := true, delay := d, tag := tg, best := bf }
   | _, _ => none
 
-def parseHeader (hd : String) : Option Tree := do
+/-- header `t=.. a=.. [v=pub]`; `v=pub` (the run through dot/core `Service.handleBlock`, which cannot see the
+    unexported pending structures) restricts the output to the public observables -/
+def parseHeader (hd : String) : Option (Tree × Bool) := do
   let mut parents : List Nat := []
   let mut annS : Option String := none
+  let mut pub := false
   for f in words hd do
     if f.startsWith "t=" then
       parents ← parseParents (f.drop 2).toString
     else if f.startsWith "a=" then
       annS := some (f.drop 2).toString
+    else if f = "v=pub" then
+      pub := true
     else none
   let anns ← match annS with
     | none => some []
     | some "-" => some []
     | some s => (s.splitOn ",").mapM (parseAnn parents.length)
-  pure { parents := parents, anns := anns }
+  pure ({ parents := parents, anns := anns }, pub)
 
 def parseOp (n : Nat) (s : String) : Option Op :=
   match words s with
@@ -108,10 +113,10 @@ structure Run where
   /-- an import failed in digest handling / forced-change application (finding `failed-import-keeps-block`) -/
   failed : Bool
 
-def runOps (t : Tree) : Run → List (Option Op) → List String × List String × Bool × Bool
+def runOps (t : Tree) (pub : Bool) : Run → List (Option Op) → List String × List String × Bool × Bool
   | _, [] => ([], [], false, false)
   | r, none :: ops =>
-    let (ms, ss, clean, tainted) := runOps t r ops
+    let (ms, ss, clean, tainted) := runOps t pub r ops
     ("bad-op" :: ms, "bad-op" :: ss, clean, tainted)
   | r, some op :: ops =>
     let oos := r.oos || (match op with
@@ -120,9 +125,10 @@ def runOps (t : Tree) : Run → List (Option Op) → List String × List String 
     let (s', res) := step t r.s op
     let (p', sres) := r.p.step t op
     let failed := r.failed || res = .eDigest .already || res = .eForced .pending
-    let m := res.str ++ " " ++ pubModel t s' ++ " # " ++ privModel s'
-    let sp := if oos then m else sres.str ++ " " ++ pubSpec t p' ++ " # " ++ privModel s'
-    let (ms, ss, clean, tainted) := runOps t { s := s', p := p', oos := oos, failed := failed } ops
+    let priv := if pub then "" else " # " ++ privModel s'
+    let m := res.str ++ " " ++ pubModel t s' ++ priv
+    let sp := if oos then m else sres.str ++ " " ++ pubSpec t p' ++ priv
+    let (ms, ss, clean, tainted) := runOps t pub { s := s', p := p', oos := oos, failed := failed } ops
     (m :: ms, sp :: ss, clean || (sp != m && !failed), tainted || (sp != m && failed))
 
 /-- `none` = the line is malformed; `some none` = an op the harness answers with `bad-op` -/
@@ -133,10 +139,10 @@ def parseOps (n : Nat) (opsS : String) : Option (List (Option Op)) :=
 def step (line : String) : String :=
   match line.splitOn "|" with
   | [hd, opsS] =>
-    match parseHeader hd, (parseHeader hd).bind (fun t => parseOps t.parents.length opsS) with
-    | some t, some ops =>
+    match parseHeader hd, (parseHeader hd).bind (fun t => parseOps t.1.parents.length opsS) with
+    | some (t, pub), some ops =>
       if ops.isEmpty then "-" else
-      let (ms, ss, clean, tainted) := runOps t { s := St.init, p := Spec.init, oos := false, failed := false } ops
+      let (ms, ss, clean, tainted) := runOps t pub { s := St.init, p := Spec.init, oos := false, failed := false } ops
       let m := joinWith ";" ms
       let sp := joinWith ";" ss
       if !clean && !tainted then m
